@@ -34,3 +34,41 @@ Definition observed_eqb (a b : observed) : bool :=
 
 Definition check_case (c : (bool * Z * Z * wstate payload) * observed) : bool :=
   observed_eqb (run_model (fst c)) (snd c).
+
+(* ---- verdicts: the spec evaluated on the model's file vs the independent
+   validator of the written bytes; and the guard of C08_write_wf ------------- *)
+From T4V Require Import C08.Spec C08.Check.
+
+Definition final_state (c : bool * Z * Z * wstate payload) : option (wstate payload) :=
+  let '(skip_dedup, u0, u1, w) := c in
+  match prune payload_eqb skip_dedup (w_surfs w) (w_vols w) u0 u1 with
+  | Err _ => None
+  | Ok (surfs, vols) =>
+      Some (mkW surfs vols (w_skipped w) (w_cells w) (w_mats w) (w_rescaled w) (w_bcs w)
+                (w_skip_comp w) (w_skip_geomcomp w) (w_skip_bc w))
+  end.
+
+(* hypotheses of C08_write_wf hold on the tables handed to the writers *)
+Definition in_guard (c : bool * Z * Z * wstate payload) : bool :=
+  match final_state c with Some w => wf_stateb w | None => false end.
+
+(* validator verdict (true = structurally valid) of the file the real run wrote *)
+Definition check_verdict (c : (bool * Z * Z * wstate payload) * observed * bool) : bool :=
+  let '(inp, _, valid) := c in
+  match final_state inp with
+  | None => true
+  | Some w =>
+      match write_file w with
+      | Complete f => Bool.eqb (wf_fileb f) valid
+      | Died _ _ _ => negb valid
+      end
+  end.
+
+Definition check_both (c : (bool * Z * Z * wstate payload) * observed * bool) : bool :=
+  let '(inp, obs, valid) := c in check_case (inp, obs) && check_verdict c.
+
+Definition outside_guard (c : (bool * Z * Z * wstate payload) * observed * bool) : bool :=
+  let '(inp, _, _) := c in negb (in_guard inp).
+
+Definition check_file (c : (bool * Z * Z * wstate payload) * observed * bool) : bool :=
+  let '(inp, obs, _) := c in check_case (inp, obs).
